@@ -772,6 +772,8 @@ class Engine:
                 status = 'unknown'
             except Budget:
                 outcome = 'budget'
+                if on_path is not None:
+                    on_path('budget')        # the path that was running when the budget ran out (C01 replays it concretely)
                 break
             self.stats['paths'] += 1
             counts[status] = counts.get(status, 0) + 1
